@@ -10,10 +10,16 @@
 //!   abrupt:d    relay to the real server (real handshake), cut both TCP connections d ms later
 //!   orderly:d   relay, d ms later send a WebSocket Close to the client, wait for the reply, close
 //!   mute        relay the handshake, then swallow everything the client sends
+//!   mutecut:d   as mute, and cut both TCP connections d ms after the handshake (a stream request in
+//!               flight fails with the multiplexor's `Closed`)
 //!   healthy     relay until the scenario ends
-//! `+n` on a step: the harness opens local TCP connection number n to the client's listener during
-//! that attempt (5-10 ms after the accept / the completed handshake), writes a token and waits for
-//! its echo.
+//! `+n` on a step (any number of them, `stall+1+2`): the harness opens local TCP connection number n
+//! during that attempt (5-10 ms after the accept / the completed handshake), writes a token and
+//! waits for its echo.  The client is configured with ONE TCP REMOTE (listener) PER REQUEST NUMBER:
+//! a TCP listener of the client has at most one stream request outstanding, so only with several
+//! listeners (or a SOCKS listener) can several local connections be queued in the client's command
+//! channel at once — which is the situation the property's "no lost request" clause is about when a
+//! connection picks up a backlog and fails one of the requests.
 //!
 //! Observed: time of every connection attempt and of the end of every attempt, the result of
 //! `client_main_inner`, whether each local connection could connect (listeners stay open), and when
@@ -57,13 +63,15 @@ enum Beh {
     Abrupt(u64),
     Orderly(u64),
     Mute,
+    MuteCut(u64),
     Healthy,
 }
 
 #[derive(Clone, Debug, PartialEq, Eq)]
 struct Step {
     beh: Beh,
-    local: Option<u32>,
+    /// local connections opened during this attempt, each on a listener of its own
+    local: Vec<u32>,
 }
 
 #[derive(Clone, Debug, PartialEq, Eq)]
@@ -84,18 +92,15 @@ impl Step {
             Beh::Abrupt(d) => format!("abrupt:{d}"),
             Beh::Orderly(d) => format!("orderly:{d}"),
             Beh::Mute => "mute".to_string(),
+            Beh::MuteCut(d) => format!("mutecut:{d}"),
             Beh::Healthy => "healthy".to_string(),
         };
-        match self.local {
-            Some(n) => format!("{b}+{n}"),
-            None => b,
-        }
+        self.local.iter().fold(b, |acc, n| format!("{acc}+{n}"))
     }
     fn parse(s: &str) -> Option<Self> {
-        let (b, local) = match s.split_once('+') {
-            Some((b, n)) => (b, Some(n.parse().ok()?)),
-            None => (s, None),
-        };
+        let mut parts = s.split('+');
+        let b = parts.next()?;
+        let local = parts.map(|n| n.parse().ok()).collect::<Option<Vec<u32>>>()?;
         let beh = match b.split_once(':') {
             None => match b {
                 "refuse" => Beh::Refuse,
@@ -107,6 +112,7 @@ impl Step {
             },
             Some(("abrupt", d)) => Beh::Abrupt(d.parse().ok()?),
             Some(("orderly", d)) => Beh::Orderly(d.parse().ok()?),
+            Some(("mutecut", d)) => Beh::MuteCut(d.parse().ok()?),
             _ => return None,
         };
         Some(Self { beh, local })
@@ -127,13 +133,21 @@ impl Scenario {
         if t.len() < 6 || t[0] != "scenario" {
             return None;
         }
-        Some(Self {
+        let sc = Self {
             count: t[1].parse().ok()?,
             max_interval: t[2].parse().ok()?,
             hs: t[3].parse().ok()?,
             ch: t[4].parse().ok()?,
             steps: t[5..].iter().map(|s| Step::parse(s)).collect::<Option<Vec<_>>>()?,
-        })
+        };
+        // a request number names one local connection (and one listener)
+        let reqs = sc.requests();
+        let distinct: std::collections::BTreeSet<u32> = reqs.iter().copied().collect();
+        (distinct.len() == reqs.len()).then_some(sc)
+    }
+    /// Every local connection of the script, in script order.
+    fn requests(&self) -> Vec<u32> {
+        self.steps.iter().flat_map(|s| s.local.iter().copied()).collect()
     }
 }
 
@@ -158,9 +172,7 @@ fn oracle(sc: &Scenario) -> Pred {
     };
     for (i, st) in sc.steps.iter().enumerate() {
         p.attempts += 1;
-        if let Some(n) = st.local {
-            pending.push_back(n);
-        }
+        pending.extend(st.local.iter().copied());
         let failure_class: &str;
         match st.beh {
             Beh::Reject => {
@@ -184,7 +196,13 @@ fn oracle(sc: &Scenario) -> Pred {
                     p.fin = "stays".into();
                     return p;
                 }
-                // the oldest pending request times out and stays first in line
+                // the oldest pending request times out and stays first in line; the others keep
+                // waiting behind it
+                k = 0;
+                failure_class = "connected";
+            }
+            Beh::MuteCut(_) => {
+                // the connection is lost before anything is served; everything pending keeps waiting
                 k = 0;
                 failure_class = "connected";
             }
@@ -206,6 +224,7 @@ fn nominal_duration(sc: &Scenario, st: &Step) -> u64 {
         Beh::Stall => sc.hs,
         Beh::Abrupt(d) | Beh::Orderly(d) => d + 30,
         Beh::Mute => sc.ch + 40,
+        Beh::MuteCut(d) => d + 30,
     }
 }
 
@@ -292,7 +311,8 @@ fn find(hay: &[u8], needle: &[u8]) -> bool {
 struct Ctx {
     t0: Instant,
     obs: Shared,
-    local_port: u16,
+    /// request number -> port of the client's listener for it
+    local_ports: std::collections::BTreeMap<u32, u16>,
     server_addr: std::net::SocketAddr,
     sc: Scenario,
 }
@@ -305,7 +325,11 @@ async fn local_connection(cx: Arc<Ctx>, req: u32, delay_ms: u64) {
         o.locals.len() - 1
     };
     let token = format!("penguin-c19-request-{req:04}\n").into_bytes();
-    match TcpStream::connect(("127.0.0.1", cx.local_port)).await {
+    let Some(port) = cx.local_ports.get(&req).copied() else {
+        cx.obs.lock().unwrap().infra = Some(format!("no listener was configured for request {req}"));
+        return;
+    };
+    match TcpStream::connect(("127.0.0.1", port)).await {
         Err(_) => {
             cx.obs.lock().unwrap().locals[idx].connect_ok = Some(false);
         }
@@ -338,8 +362,8 @@ async fn scripted_connection(cx: Arc<Ctx>, i: usize, mut client: TcpStream) {
         cx.obs.lock().unwrap().ends[i] = Some(t);
     };
     let spawn_local = |cx: &Arc<Ctx>, st: &Step, delay: u64| {
-        if let Some(n) = st.local {
-            tokio::spawn(local_connection(cx.clone(), n, delay));
+        for n in &st.local {
+            tokio::spawn(local_connection(cx.clone(), *n, delay));
         }
     };
     let Some(step) = step else {
@@ -378,7 +402,7 @@ async fn scripted_connection(cx: Arc<Ctx>, i: usize, mut client: TcpStream) {
             set_end(&cx);
             let _ = tokio::time::timeout(Duration::from_millis(500), client.read(&mut buf)).await;
         }
-        Beh::Abrupt(_) | Beh::Orderly(_) | Beh::Mute | Beh::Healthy => {
+        Beh::Abrupt(_) | Beh::Orderly(_) | Beh::Mute | Beh::MuteCut(_) | Beh::Healthy => {
             let Ok(upstream) = TcpStream::connect(cx.server_addr).await else {
                 cx.obs.lock().unwrap().infra = Some("cannot reach the real server".into());
                 return;
@@ -418,6 +442,10 @@ async fn scripted_connection(cx: Arc<Ctx>, i: usize, mut client: TcpStream) {
                                     spawn_local(&cx, &step, 10);
                                     match step.beh {
                                         Beh::Mute => discard = true,
+                                        Beh::MuteCut(d) => {
+                                            discard = true;
+                                            deadline = Some(tokio::time::Instant::now() + Duration::from_millis(d));
+                                        }
                                         Beh::Abrupt(d) | Beh::Orderly(d) => {
                                             deadline = Some(tokio::time::Instant::now() + Duration::from_millis(d));
                                         }
@@ -484,8 +512,14 @@ async fn run_scenario_async(sc: Scenario) -> Obs {
     // the scripted server
     let front = TcpListener::bind("127.0.0.1:0").await.expect("bind scripted server");
     let front_addr = front.local_addr().unwrap();
-    let local_port = pick_port();
-    let cx = Arc::new(Ctx { t0, obs: obs.clone(), local_port, server_addr, sc: sc.clone() });
+    let local_ports: std::collections::BTreeMap<u32, u16> = sc.requests().into_iter().map(|r| (r, pick_port())).collect();
+    let mut remotes: Vec<Remote> =
+        local_ports.values().map(|p| Remote::from_str(&format!("127.0.0.1:{p}:127.0.0.1:{echo_port}")).expect("remote")).collect();
+    if remotes.is_empty() {
+        // a client needs a remote; nothing connects to this one
+        remotes.push(Remote::from_str(&format!("127.0.0.1:{}:127.0.0.1:{echo_port}", pick_port())).expect("remote"));
+    }
+    let cx = Arc::new(Ctx { t0, obs: obs.clone(), local_ports, server_addr, sc: sc.clone() });
     {
         let cx = cx.clone();
         tokio::spawn(async move {
@@ -506,7 +540,7 @@ async fn run_scenario_async(sc: Scenario) -> Obs {
     // the real client
     let args: &'static ClientArgs = Box::leak(Box::new(ClientArgs {
         server: ServerUrl::from_str(&format!("ws://{front_addr}/ws")).expect("server url"),
-        remote: vec![Remote::from_str(&format!("127.0.0.1:{local_port}:127.0.0.1:{echo_port}")).expect("remote")],
+        remote: remotes,
         keepalive: OptionalDuration::NONE,
         max_retry_count: sc.count,
         max_retry_interval: sc.max_interval,
@@ -583,6 +617,23 @@ fn run_scenario(sc: &Scenario) -> Obs {
 fn compare(sc: &Scenario, p: &Pred, o: &Obs) -> Vec<(String, String)> {
     let mut bad = vec![];
     let n_obs = o.accepts.len();
+    // "Local listeners stay open throughout": no script step gives a listener a reason to end, so
+    // `RemoteHandlerExited` means a listener task was made to exit (e.g. its stream request was
+    // dropped instead of parked or left in the channel)
+    if let Some((t, c)) = &o.client_result
+        && c.contains("remote-handler-exited")
+        && !p.fin.contains("remote-handler-exited")
+    {
+        let waiting: Vec<u32> = o.locals.iter().filter(|l| l.echoed_ms.is_none() && l.opened_ms < *t).map(|l| l.req).collect();
+        bad.push((
+            "listener-exited".to_string(),
+            format!(
+                "client_main_inner returned RemoteHandlerExited at {t} ms (during attempt {}): a local listener ended although listeners must \
+                 stay open throughout; local connection(s) {waiting:?} were waiting to be served by a later connection",
+                n_obs.saturating_sub(1)
+            ),
+        ));
+    }
     if n_obs != p.attempts {
         let what = if n_obs < p.attempts {
             let last = sc.steps.get(n_obs.saturating_sub(1)).map(Step::text).unwrap_or_default();
@@ -624,9 +675,11 @@ fn compare(sc: &Scenario, p: &Pred, o: &Obs) -> Vec<(String, String)> {
             Beh::Mute => {
                 // the clock starts with the connection when a request was already waiting, else
                 // when the local connection of this step arrives
-                let own = st.local.and_then(|n| o.locals.iter().find(|l| l.req == n)).map(|l| l.opened_ms);
-                let waiting_before =
-                    sc.steps[..i].iter().filter_map(|s| s.local).any(|r| !p.served.iter().any(|(q, a)| *q == r && *a < i));
+                let own = st.local.iter().filter_map(|n| o.locals.iter().find(|l| l.req == *n)).map(|l| l.opened_ms).min();
+                let waiting_before = sc.steps[..i]
+                    .iter()
+                    .flat_map(|s| s.local.iter())
+                    .any(|r| !p.served.iter().any(|(q, a)| q == r && *a < i));
                 let start = if waiting_before { o.hs_done.get(i).copied().flatten() } else { own };
                 if let Some(start) = start {
                     let dur = end - start;
@@ -752,7 +805,11 @@ fn obs_json(o: &Obs) -> pvhf::Value {
 // ---------------------------------------------------------------------------------------------
 
 fn st(beh: Beh, local: Option<u32>) -> Step {
-    Step { beh, local }
+    Step { beh, local: local.into_iter().collect() }
+}
+
+fn stv(beh: Beh, local: &[u32]) -> Step {
+    Step { beh, local: local.to_vec() }
 }
 
 fn fixed_scenarios() -> Vec<Scenario> {
@@ -770,6 +827,13 @@ fn fixed_scenarios() -> Vec<Scenario> {
         Scenario { count: 0, max_interval: 1000, hs: 300, ch: 300, steps: vec![st(Mute, Some(1)), st(Refuse, None), st(Healthy, Some(2))] },
         // a non-retryable error ends the client at once
         Scenario { count: 0, max_interval: 500, hs: 300, ch: 300, steps: vec![st(Refuse, None), st(Reject, None), st(Refuse, None)] },
+        // a backlog: two local connections accepted while the tunnel was down are both waiting when a
+        // connection comes up and goes silent; the first request times out (parked), the second must
+        // still be there for the next connection
+        Scenario { count: 0, max_interval: 1000, hs: 300, ch: 300, steps: vec![st(Refuse, Some(1)), st(Refuse, Some(2)), st(Mute, None), st(Healthy, Some(3))] },
+        // three at once during a stalled handshake; the connection that picks them up is cut under the
+        // first request, the next one is silent, then a refusal, then a healthy one serves all
+        Scenario { count: 0, max_interval: 500, hs: 300, ch: 300, steps: vec![stv(Stall, &[1, 2, 3]), st(MuteCut(120), None), st(Mute, Some(4)), st(Refuse, None), st(Healthy, Some(5))] },
     ]
 }
 
@@ -779,29 +843,51 @@ fn random_scenario(r: &mut Rng) -> Scenario {
         let max_interval = *r.pick(&[120u64, 250, 500, 1000]);
         let hs = *r.pick(&[200u64, 300]);
         let ch = *r.pick(&[250u64, 350]);
-        let len = r.range(2, 6) as usize;
         let mut steps = vec![];
         let mut next_req = 1u32;
         let mut pending = 0u32;
+        let take = |n: u64, next_req: &mut u32| -> Vec<u32> {
+            (0..n).map(|_| {
+                *next_req += 1;
+                *next_req - 1
+            }).collect()
+        };
+        // one scenario in three starts with a backlog: 2-4 local connections accepted while the tunnel
+        // is down (refused / stalled attempts), picked up by a connection that fails the first of them
+        let backlog = r.chance(1, 3);
+        if backlog {
+            let downs = r.range(1, 2);
+            let mut total = r.range(2, 4);
+            for i in 0..downs {
+                let n = if i + 1 == downs { total } else { r.range(1, total - 1) };
+                total -= n;
+                let beh = if r.chance(1, 3) { Beh::Stall } else { Beh::Refuse };
+                steps.push(Step { beh, local: take(n, &mut next_req) });
+                pending += n as u32;
+            }
+            let beh = if r.chance(1, 2) { Beh::Mute } else { Beh::MuteCut(*r.pick(&[60u64, 120])) };
+            steps.push(Step { beh, local: take(r.below(2), &mut next_req) });
+        }
+        let len = if backlog { r.range(0, 3) } else { r.range(2, 6) } as usize;
         for _ in 0..len {
-            let beh = match r.below(10) {
+            let beh = match r.below(11) {
                 0..=2 => Beh::Refuse,
                 3 | 4 => Beh::Stall,
                 5 | 6 => Beh::Abrupt(*r.pick(&[150u64, 300])),
                 7 | 8 => Beh::Orderly(*r.pick(&[150u64, 250])),
+                9 => Beh::MuteCut(*r.pick(&[60u64, 120])),
                 _ => Beh::Mute,
             };
-            let mut local = r.chance(2, 5).then(|| {
-                next_req += 1;
-                next_req - 1
-            });
-            if beh == Beh::Mute && pending == 0 && local.is_none() {
-                local = Some(next_req);
-                next_req += 1;
+            let n = match r.below(10) {
+                0..=5 => 0,
+                6..=8 => 1,
+                _ => 2,
+            };
+            let mut local = take(n, &mut next_req);
+            if beh == Beh::Mute && pending == 0 && local.is_empty() {
+                local = take(1, &mut next_req);
             }
-            if local.is_some() {
-                pending += 1;
-            }
+            pending += local.len() as u32;
             match beh {
                 Beh::Abrupt(_) | Beh::Orderly(_) => pending = 0,
                 _ => {}
@@ -813,13 +899,13 @@ fn random_scenario(r: &mut Rng) -> Scenario {
             1 | 2 => Beh::Refuse,
             _ => Beh::Healthy,
         };
-        steps.push(Step { beh: last, local: r.chance(1, 2).then_some(next_req) });
+        steps.push(Step { beh: last, local: if r.chance(1, 2) { take(1, &mut next_req) } else { vec![] } });
         let mut sc = Scenario { count, max_interval, hs, ch, steps };
         // keep what is executed; make the end determinate
         let p = oracle(&sc);
         sc.steps.truncate(p.attempts);
         if p.fin == "script-end" {
-            sc.steps.push(Step { beh: Beh::Healthy, local: None });
+            sc.steps.push(Step { beh: Beh::Healthy, local: vec![] });
         }
         let p = oracle(&sc);
         let nominal: u64 = sc.steps.iter().map(|s| nominal_duration(&sc, s)).sum::<u64>() + p.sleeps.iter().sum::<u64>();
@@ -903,9 +989,11 @@ client_main_inner; non-trivial = at least two connection attempts (one retry); d
     let mut outs = run_parallel(&scs, width);
     // a failing scenario is run once more on its own (real-time noise) before it is reported
     let mut reruns = 0;
+    let mut first_run_failures: Vec<String> = vec![];
     for (sc, out) in scs.iter().zip(outs.iter_mut()) {
         if !out.impl_bad.is_empty() {
             reruns += 1;
+            first_run_failures.push(format!("[{}] {}", out.impl_bad.iter().map(|(k, _)| k.as_str()).collect::<Vec<_>>().join("; "), sc.line()));
             let again = evaluate(sc);
             if again.impl_bad.is_empty() || !out.impl_bad.iter().any(|(k, _)| !k.starts_with("late")) {
                 *out = again;
@@ -918,6 +1006,9 @@ client_main_inner; non-trivial = at least two connection attempts (one retry); d
         }
     }
     rep.notes.push(format!("{} scenario(s), {n_corpus} from the corpus; {reruns} re-run once because the first run failed; parallel width {width}", scs.len()));
+    if !first_run_failures.is_empty() {
+        rep.notes.push(format!("first-run failures that led to a re-run: {}", first_run_failures.join(" || ")));
+    }
     let model: Option<Vec<String>> = drv.as_mut().map(|d| d.batch(&scs.iter().map(Scenario::line).collect::<Vec<_>>()));
     for (i, (sc, out)) in scs.iter().zip(outs.iter()).enumerate() {
         let line = sc.line();
@@ -925,9 +1016,7 @@ client_main_inner; non-trivial = at least two connection attempts (one retry); d
         rep.case((exp.attempts >= 2).then(|| fnv(line.as_bytes())));
         for s in &sc.steps {
             rep.count(&format!("behaviour/{}", s.text().split([':', '+']).next().unwrap_or("?")));
-            if s.local.is_some() {
-                rep.count("local-connection");
-            }
+            rep.count_n("local-connection", s.local.len() as u64);
         }
         rep.count(&format!("final/{}", exp.fin.split(':').next().unwrap_or("?")));
         rep.count_n("attempts", out.obs.accepts.len() as u64);
